@@ -169,15 +169,20 @@ def _mk_exc(i):
         e = FlakyExtract("flaky %d" % _FLAKY[0])
         e.first = _FLAKY[0] == 1
         return e
+    if i == 14:
+        return ModuleLess("moduleless")
     raise IndexError(i)
 
+
+# a class whose __module__ is not a string (generated stubs, classes with the attribute cleared)
+ModuleLess = type("ModuleLess", (Exception,), {"__module__": None})
 
 N_EXC = 10
 
 # exit attribute: 0 = normal return; else (catch_up, exception index)
 # catch_up: number of enclosing action boundaries the exception crosses after
 # leaving this action before it is caught (99 = to the top of the program).
-EXITS = [None] + [(0, e) for e in range(N_EXC)] + [(1, 0), (99, 0), (1, 3), (99, 6), (2, 2), (0, 10), (99, 10), (0, 11), (0, 12), (1, 12), (0, 13)]
+EXITS = [None] + [(0, e) for e in range(N_EXC)] + [(1, 0), (99, 0), (1, 3), (99, 6), (2, 2), (0, 10), (99, 10), (0, 11), (0, 12), (1, 12), (0, 13), (0, 14), (1, 14)]
 
 
 def exc_name(e):
